@@ -203,6 +203,18 @@ class RatFun:
                 from .absint import RaiseEx
                 raise RaiseEx("ZeroDivisionError", node)
             return RatFun(a.num * b.den, a.den * b.num)
+        if op is ast.FloorDiv and "tick_syms" in interp.__dict__:
+            # a // b in the MIDI domain: the truncated quotient, a tick count of its own (not the rounded one)
+            if b.num.is_zero():
+                from .absint import RaiseEx
+                raise RaiseEx("ZeroDivisionError", node)
+            from .absval import Lin, Sym, INF
+            q = RatFun(a.num * b.den, a.den * b.num)
+            ticks = interp.__dict__["tick_syms"]
+            key = "floor:" + repr(q)
+            if key not in ticks:
+                ticks[key] = (Sym("floor_ticks(%s)" % (len(ticks)), 0, INF), None)
+            return Lin.of(ticks[key][0])
         if op is ast.Pow and not reflected:
             c = _frac(other)
             if c is not None and c.denominator == 1 and 0 <= c <= 16:
@@ -239,8 +251,9 @@ def _ratfun_compare(self, interp, op, other, reflected, node):
     if a.same(b):
         # the same rational function on both sides: every comparison is decided
         return op in (ast.Eq, ast.LtE, ast.GtE)
-    interp.__dict__.setdefault("log", []).append(("cmp", op.__name__, a, b))
-    return interp.fork("%s %s %s" % (a, op.__name__, b))
+    r = interp.fork("%s %s %s" % (a, op.__name__, b))
+    interp.__dict__.setdefault("log", []).append(("cmp", op.__name__, a, b, r))
+    return r
 
 
 RatFun.a_compare = _ratfun_compare
